@@ -78,6 +78,17 @@ fn embed_all(name: &str, x: &[i64]) -> Option<Vec<f64>> {
 }
 
 const AFF: [(i64, i64); 3] = [(1, 0), (1, -10), (3, -7)];
+/// samples hold integers 1..=7: 7 * 2^1021 < f64::MAX < 2 * 2^1023
+const BIG_EXPS: [i32; 2] = [1021, -1070];
+
+/// exact 2^e for -1074 <= e <= 1023
+fn pow2(e: i32) -> f64 {
+    if e >= -1022 {
+        f64::from_bits(((e + 1023) as u64) << 52)
+    } else {
+        f64::from_bits(1u64 << (e + 1074))
+    }
+}
 
 fn calibration() -> SelectionCalibration {
     SelectionCalibration {
@@ -167,7 +178,22 @@ fn seq_record_of(x: &[i64], vals: &[Vec<f64>], with_aff: bool) -> Value {
         };
         aff_rows.push(json!([a, b, ts, sl.0, sl.1, ic.0, ic.1, ms, md.0, md.1]));
     }
-    json!({"op":"seq","x":x,"rank":rank_rows,"pp":p_rows,"aff":aff_rows,"frac":frac})
+    // medians of the sample scaled by 2^e (exact, order preserving; the largest values come within a factor 2 of f64::MAX, so the
+    // sum of the two central values of an even-sized sample is not representable while their mean is); scaled back before logging
+    let mut big_rows = vec![];
+    for e in BIG_EXPS {
+        if !with_aff {
+            break;
+        }
+        let sc = pow2(e);
+        let v: Vec<f64> = x.iter().map(|t| (*t as f64) * sc).collect();
+        let (ms, md) = match median(&v) {
+            Some(m) => (1, nr(m / sc, 2.0)),
+            None => (0, (0, 0)),
+        };
+        big_rows.push(json!([e, ms, md.0, md.1]));
+    }
+    json!({"op":"seq","x":x,"rank":rank_rows,"pp":p_rows,"aff":aff_rows,"big":big_rows,"frac":frac})
 }
 
 fn split_record(x: &[i64], t: usize) -> Value {
@@ -314,6 +340,32 @@ fn cmd_random(out: &str, n_lop: usize, n_long: usize) {
             }
         }
         tr.emit(&json!({"op":"range","len":len,"style":style,"t":t,"ps":ps.iter().map(|p| vec![p.0, p.1]).collect::<Vec<_>>()}));
+        n += 1;
+    }
+    // completely separated samples whose exact permutation tail 2 / C(l + r, l) is below the reportable floor 1e-15
+    // (27 v 28 and beyond, lopsided 6 v 1064), and just above it: the reported p-value must stay in [1e-15, 1]
+    for (a, b) in [(27usize, 28usize), (28, 28), (28, 29), (30, 30), (6, 1064), (1064, 6), (5, 1064), (26, 27), (3, 100)] {
+        let l: Vec<f64> = (0..a).map(|i| i as f64).collect();
+        let r: Vec<f64> = (0..b).map(|i| 1.0e6 + i as f64).collect();
+        let mut ps = vec![];
+        ps.push(phl(mann_whitney_u_pvalue(&l, &r)));
+        ps.push(phl(mann_whitney_u_pvalue(&r, &l)));
+        if let Some(m) = MannWhitneyU::new(&l, &r) {
+            ps.push(phl(m.two_sided_p_value()));
+        }
+        if a + b <= 120 {
+            let v: Vec<f64> = l.iter().chain(r.iter()).copied().collect();
+            if let Some(c) = pettitt(&v) {
+                ps.push(phl(c.p_value));
+            }
+            ps.push(phl(mann_kendall(&v).p_value));
+            let cal = SelectionCalibration { permutation_order_budget: NonZero::new(200).expect("nonzero"), ..calibration() };
+            if let Ok(Some(s)) = vrt::catch(|| selection_adjusted_change_point(&v, 5, cal)) {
+                ps.push(phl(s.tainted_p));
+                ps.push(phl(s.adjusted_p));
+            }
+        }
+        tr.emit(&json!({"op":"range","len":a + b,"style":9,"t":a,"ps":ps.iter().map(|p| vec![p.0, p.1]).collect::<Vec<_>>()}));
         n += 1;
     }
     // Student t: p(0) = 1, non-increasing in |t|, symmetric, degenerate inputs give exactly 1
